@@ -188,7 +188,7 @@ func (e *Engine) newTrans(fn *ssa.Function, ct *Contract, key string, inst strin
 		dtSeen: map[string]bool{}, declared: map[string]bool{}, compSort: map[string]string{}, vals: map[ssa.Value]Val{},
 		blkOut: map[*ssa.BasicBlock]*State{}, reach: map[*ssa.BasicBlock]string{}, edgeC: map[[2]int]string{},
 		counters: map[string]int{}, abstr: map[string]bool{}, trusted: map[string]bool{}, strs: map[string]string{}, typeIDs: map[string]int{},
-		sentinels: map[string]string{}, ranges: map[*ssa.Range]*rangeState{}, loopPre: map[*ssa.BasicBlock]*State{}, ghostDone: map[*ssa.Return]bool{}, compT: map[string]types.Type{}}
+		sentinels: map[string]string{}, ranges: map[*ssa.Range]*rangeState{}, loopPre: map[*ssa.BasicBlock]*State{}, ghostDone: map[*ssa.Return]bool{}, compT: map[string]types.Type{}, gaddr: map[string]string{}}
 }
 
 type FnResult struct {
@@ -323,6 +323,14 @@ func pow2Def() string {
 	b.WriteString("0")
 	b.WriteString(strings.Repeat(")", n))
 	b.WriteString(")\n")
+	// mulpow2(v, k) = v * 2^k as a case split with a linear term per case
+	b.WriteString("(define-fun mulpow2 ((v Int) (k Int)) Int ")
+	for k := 0; k <= 255; k++ {
+		fmt.Fprintf(&b, "(ite (= k %d) (* %s v) ", k, pow2(k).String())
+	}
+	b.WriteString("0")
+	b.WriteString(strings.Repeat(")", 256))
+	b.WriteString(")\n")
 	return b.String()
 }
 
@@ -338,8 +346,11 @@ func (t *FnTrans) assemble(o *Obligation) string {
 	b.WriteString(prelude)
 	usesPow := strings.Contains(o.Goal, "pow2")
 	if !usesPow {
+		usesPow = strings.Contains(o.Guard, "pow2")
+	}
+	if !usesPow {
 		for _, l := range t.lines[:o.NLines] {
-			if strings.Contains(l, "(pow2 ") {
+			if strings.Contains(l, "(pow2 ") || strings.Contains(l, "(mulpow2 ") {
 				usesPow = true
 				break
 			}
